@@ -51,6 +51,27 @@ Definition i64_spec (d : bytes) : outcome Z :=
     else Err E_AllDigits
   end.
 
+(* ------------------------------------------------------------------ the prefix parsers behind them (pub(crate), used by
+   the date parser): value of the leading run and the unread rest *)
+Definition i64t_spec (d : bytes) : outcome (Z * bytes) :=
+  match d with
+  | [] => Err E_AllDigits
+  | c :: r =>
+    let neg := c =? 45 in
+    let signed := neg || (c =? 43) in
+    let (ds, rest) := digit_span (if signed then r else d) in
+    if negb signed && is_nil ds then Err E_AllDigits
+    else if I64_MAX <? dec_value ds then Err E_Overflow
+    else Ok ((if neg then - Z.of_N (dec_value ds) else Z.of_N (dec_value ds))%Z, rest)
+  end.
+
+(* to_u64_t(d, start): at least one digit must be read *)
+Definition u64t_spec (d : bytes) (start : N) : outcome (N * bytes) :=
+  let (ds, rest) := digit_span d in
+  if U64_LIM <=? dec_on start ds then Err E_Overflow
+  else if is_nil ds then Err E_Overflow
+  else Ok (dec_on start ds, rest).
+
 (* ------------------------------------------------------------------ to_bool *)
 Definition bool_spec (d : bytes) : outcome bool :=
   if beqb d [121; 101; 115] then Ok true else if beqb d [110; 111] then Ok false else Err E_InvalidBool.
